@@ -74,12 +74,31 @@ def run(res: Results, idx: Index, tier: str) -> None:
             for nm in du.closure(names_in(payload)):
                 cl_vals += [d.value for d in du.defs.get(nm, []) if d.value is not None and any(p is lp for p in parents(d.stmt))]
             cl_vals.append(payload)
+        def _lossy_elt(comp: ast.AST) -> bool:
+            """A per-dimension map that sends different dimensions to one constant (`... else "?"`, type names, flags)."""
+            tn = {n_ for gcl in comp.generators for n_ in names_in(gcl.target)}  # type: ignore[attr-defined]
+            elt = comp.elt  # type: ignore[attr-defined]
+            if not (names_in(elt) & tn):
+                return True
+            for y in ast.walk(elt):
+                if isinstance(y, ast.IfExp) and (not (names_in(y.body) & tn) or not (names_in(y.orelse) & tn)):
+                    return True
+                if isinstance(y, ast.Call) and (call_name(y) or "") in ("type", "isinstance", "bool", "len", "hash") and y is elt:
+                    return True
+            return False
+
         def _unreduced(x: ast.AST) -> bool:
+            child = x
             for p in parents(x):
                 if isinstance(p, ast.Call) and (call_name(p) or "") in ("len", "bool", "any", "all", "sum", "max", "min", "hash") and x is not p.func:
                     return False
+                if isinstance(p, ast.comprehension):
+                    comp = getattr(p, "parent", None)
+                    if comp is not None and hasattr(comp, "elt") and _lossy_elt(comp):
+                        return False
                 if isinstance(p, ast.stmt):
                     break
+                child = p
             return True
         has_shape = any((isinstance(x, ast.Constant) and x.value == "shape" or (isinstance(x, ast.Attribute) and x.attr == "shape")) and _unreduced(x) for v in cl_vals for x in ast.walk(v))
         has_dtype = any(isinstance(x, ast.Constant) and x.value == "dtype" or (isinstance(x, ast.Attribute) and x.attr == "dtype") for v in cl_vals for x in ast.walk(v))
